@@ -85,27 +85,27 @@ Proof.
     rewrite Forall_forall in IH. exact (IH c Hc n (Hd c Hc) Hn).
 Qed.
 
-Theorem extract_with_taxa_spec keep sup_arg t : NoDup (ids t) -> leaf_taxa_only t = true ->
-  extract_tree_with_taxa keep sup_arg t =
-  match restrict true (keep_taxa keep) t with
+Theorem extract_with_taxa_spec keep sup t : NoDup (ids t) -> leaf_taxa_only t = true ->
+  extract_tree_with_taxa keep sup t =
+  match restrict sup (keep_taxa keep) t with
   | Some r => XOk r
   | None => XErr (if is_leaf t then EValue else ESeedDel)
   end.
 Proof.
   intros Hnd Hd. unfold extract_tree_with_taxa. rewrite extract_wrapper_spec; [|exact Hnd].
-  unfold restrict. rewrite (restrictG_ext_leaves true np_true np_false (with_taxa_p keep) (keep_taxa keep)); [reflexivity|].
+  unfold restrict. rewrite (restrictG_ext_leaves sup np_true np_false (with_taxa_p keep) (keep_taxa keep)); [reflexivity|].
   intros n Hn. destruct (leaf_has_taxon t n Hd Hn) as [a Ea]. unfold with_taxa_p, keep_taxa. rewrite Ea. reflexivity.
 Qed.
 
-Theorem extract_without_taxa_spec pruned sup_arg t : NoDup (ids t) -> leaf_taxa_only t = true ->
-  extract_tree_without_taxa pruned sup_arg t =
-  match restrict true (drop_taxa pruned) t with
+Theorem extract_without_taxa_spec pruned sup t : NoDup (ids t) -> leaf_taxa_only t = true ->
+  extract_tree_without_taxa pruned sup t =
+  match restrict sup (drop_taxa pruned) t with
   | Some r => XOk r
   | None => XErr (if is_leaf t then EValue else ESeedDel)
   end.
 Proof.
   intros Hnd Hd. unfold extract_tree_without_taxa. rewrite extract_wrapper_spec; [|exact Hnd].
-  unfold restrict. rewrite (restrictG_ext_leaves true np_true np_false (without_taxa_p pruned) (drop_taxa pruned)); [reflexivity|].
+  unfold restrict. rewrite (restrictG_ext_leaves sup np_true np_false (without_taxa_p pruned) (drop_taxa pruned)); [reflexivity|].
   intros n Hn. destruct (leaf_has_taxon t n Hd Hn) as [a Ea]. unfold without_taxa_p, drop_taxa. rewrite Ea. reflexivity.
 Qed.
 
@@ -117,24 +117,24 @@ Proof.
   destruct (leaf_has_taxon t n Hd Hn) as [a Ea]. rewrite Ea. exact (H n a Hn Ea).
 Qed.
 
-(* the four taxon-based variants *)
-Theorem four_way keep pruned ns s1 s2 t rooted r :
+(* the four taxon-based variants, for both settings of suppress_unifurcations *)
+Theorem four_way keep pruned ns sup t rooted r :
   NoDup (ids t) -> leaf_taxa_only t = true -> taxa_in_ns ns t ->
   (forall n a, In n (leaves t) -> t_taxon n = Some a -> memz a pruned = negb (memz a keep)) ->
-  restrict true (keep_taxa keep) t = Some r ->
-  prune_taxa pruned false true true false (t, rooted) = IOk ([], r, rooted) /\
-  retain_taxa ns keep false true (t, rooted) = IOk ([], r, rooted) /\
-  extract_tree_with_taxa keep s1 t = XOk r /\
-  extract_tree_without_taxa pruned s2 t = XOk r.
+  restrict sup (keep_taxa keep) t = Some r ->
+  prune_taxa pruned false sup true false (t, rooted) = IOk ([], r, rooted) /\
+  retain_taxa ns keep false sup (t, rooted) = IOk ([], r, rooted) /\
+  extract_tree_with_taxa keep sup t = XOk r /\
+  extract_tree_without_taxa pruned sup t = XOk r.
 Proof.
   intros Hnd Hd Hns Hc Hr.
-  assert (E : restrict true (drop_taxa pruned) t = Some r).
+  assert (E : restrict sup (drop_taxa pruned) t = Some r).
   { rewrite <- Hr. apply restrict_ext_leaf_taxa; [exact Hd|]. intros n a Hn Ea. unfold drop_taxa, keep_taxa.
     rewrite (Hc n a Hn Ea), negb_involutive. reflexivity. }
-  assert (P : prune_taxa pruned false true true false (t, rooted) = IOk ([], r, rooted)).
+  assert (P : prune_taxa pruned false sup true false (t, rooted) = IOk ([], r, rooted)).
   { rewrite prune_taxa_spec; [|exact Hnd | exact Hd]. change (p1_keep true pruned) with (drop_taxa pruned). rewrite E. reflexivity. }
   split; [exact P|]. split.
-  - rewrite (retain_is_prune_complement_thm ns keep pruned false true t rooted Hnd Hd Hns Hc). exact P.
+  - rewrite (retain_is_prune_complement_thm ns keep pruned false sup t rooted Hnd Hd Hns Hc). exact P.
   - split.
     + rewrite extract_with_taxa_spec; [rewrite Hr; reflexivity | exact Hnd | exact Hd].
     + rewrite extract_without_taxa_spec; [rewrite E; reflexivity | exact Hnd | exact Hd].
@@ -169,26 +169,26 @@ Proof.
   intros n a Hn Ea. apply bool_iff. rewrite !memz_In, get_taxa_mem. exact (HL n a Hn Ea).
 Qed.
 
-Theorem extract_with_labels_spec ns labels keep s1 s2 t :
+Theorem extract_with_labels_spec ns labels keep sup t :
   NoDup (ids t) -> leaf_taxa_only t = true -> labels_name_exact ns labels keep t ->
-  extract_tree_with_taxa_labels ns labels s1 t = extract_tree_with_taxa keep s2 t.
+  extract_tree_with_taxa_labels ns labels sup t = extract_tree_with_taxa keep sup t.
 Proof.
   intros Hnd Hd HL. unfold extract_tree_with_taxa_labels, extract_tree_with_taxa.
   rewrite !extract_wrapper_spec; try exact Hnd.
-  rewrite (restrict_ext_leaf_taxa true (with_labels_p ns labels) (with_taxa_p keep) t Hd); [reflexivity|].
+  rewrite (restrict_ext_leaf_taxa sup (with_labels_p ns labels) (with_taxa_p keep) t Hd); [reflexivity|].
   intros n a Hn Ea. unfold with_labels_p, with_taxa_p. apply bool_iff. rewrite memz_In, <- (HL n a Hn Ea).
   destruct (tax_label ns a) as [lb|].
   - rewrite memz_In. split; [intro H; exists lb; split; [reflexivity | exact H] | intros [lb' [E H]]; inversion E; subst; exact H].
   - split; [discriminate | intros [lb' [E _]]; discriminate E].
 Qed.
 
-Theorem extract_without_labels_spec ns labels pruned s1 s2 t :
+Theorem extract_without_labels_spec ns labels pruned sup t :
   NoDup (ids t) -> leaf_taxa_only t = true -> labels_name_exact ns labels pruned t ->
-  extract_tree_without_taxa_labels ns labels s1 t = extract_tree_without_taxa pruned s2 t.
+  extract_tree_without_taxa_labels ns labels sup t = extract_tree_without_taxa pruned sup t.
 Proof.
   intros Hnd Hd HL. unfold extract_tree_without_taxa_labels, extract_tree_without_taxa.
   rewrite !extract_wrapper_spec; try exact Hnd.
-  rewrite (restrict_ext_leaf_taxa true (without_labels_p ns labels) (without_taxa_p pruned) t Hd); [reflexivity|].
+  rewrite (restrict_ext_leaf_taxa sup (without_labels_p ns labels) (without_taxa_p pruned) t Hd); [reflexivity|].
   intros n a Hn Ea. unfold without_labels_p, without_taxa_p.
   assert (B : (match tax_label ns a with Some lb => memz lb labels | None => false end) = memz a pruned).
   { apply bool_iff. rewrite memz_In, <- (HL n a Hn Ea).
@@ -285,26 +285,31 @@ Example ex_filter_removed :
   IOk ([2; 3; 1], T 0 None None (Some 5120) [T 4 (Some 2) None (Some 4096) []], Some true).
 Proof. vm_compute. reflexivity. Qed.
 
-(* the wrappers ignore suppress_unifurcations=False *)
-Theorem extract_wrapper_declined_refuted :
-  exists keep t, NoDup (ids t) /\ leaf_taxa_only t = true /\
-    exists r, restrict false (keep_taxa keep) t = Some r /\ extract_tree_with_taxa keep false t <> XOk r
-              /\ extract_tree (Some (true, false, ids_where (with_taxa_p keep) t)) false t = XOk r.
+(* suppression can be declined through the wrappers: the unifurcation left by dropping B stays *)
+Example ex_extract_declined :
+  extract_tree_with_taxa [0; 2] false ex_tree =
+  XOk (T 0 None None (Some 5120) [T 1 None None (Some 3072) [T 2 (Some 0) None (Some 1024) []];
+                                  T 4 (Some 2) None (Some 4096) []]).
+Proof. vm_compute. reflexivity. Qed.
+
+(* ... and with update_bipartitions=True: on a rooted tree the encoding restructures nothing *)
+Lemma encode_effect_rooted_declined r : encode_effect false (Some true) r = (r, Some true).
+Proof. reflexivity. Qed.
+
+Theorem update_respects_declined taxa t r :
+  NoDup (ids t) -> leaf_taxa_only t = true ->
+  restrict false (drop_taxa taxa) t = Some r ->
+  prune_taxa taxa true false true false (t, Some true) = IOk ([], r, Some true).
 Proof.
-  exists [0; 2], ex_tree. split; [exact (proj1 ex_tree_ok)|]. split; [reflexivity|].
-  eexists. split; [vm_compute; reflexivity|]. split; [vm_compute; discriminate | vm_compute; reflexivity].
+  intros Hnd Hd Hr. rewrite prune_taxa_spec; [|exact Hnd | exact Hd].
+  change (p1_keep true taxa) with (drop_taxa taxa). rewrite Hr. reflexivity.
 Qed.
 
-(* update_bipartitions=True suppresses although suppression was declined (rooted tree) *)
-Theorem update_overrides_declined_refuted :
-  exists taxa t, NoDup (ids t) /\ leaf_taxa_only t = true /\
-    exists r, restrict false (drop_taxa taxa) t = Some r /\
-              prune_taxa taxa false false true false (t, Some true) = IOk ([], r, Some true) /\
-              prune_taxa taxa true false true false (t, Some true) <> IOk ([], r, Some true).
-Proof.
-  exists [1], ex_tree. split; [exact (proj1 ex_tree_ok)|]. split; [reflexivity|].
-  eexists. split; [vm_compute; reflexivity|]. split; [vm_compute; reflexivity | vm_compute; discriminate].
-Qed.
+Example ex_update_declined :
+  prune_taxa [1] true false true false (ex_tree, Some true) =
+  IOk ([], T 0 None None (Some 5120) [T 1 None None (Some 3072) [T 2 (Some 0) None (Some 1024) []];
+                                      T 4 (Some 2) None (Some 4096) []], Some true).
+Proof. vm_compute. reflexivity. Qed.
 
 (* labels: the in-place methods use the namespace's (case-insensitive) lookup, extraction compares
    strings; label 1 is the upper-case variant of label 0 *)
